@@ -94,7 +94,75 @@ def gen_arg(rng, tier):
     return TS.gen_spec(rng, rng.choice([0, 1, 1, 2]), logic=rng.random() < 0.3, dc=lambda r, d: TS.gen_dc(r, 0))
 
 
+LATE_SRC = """
+import typing
+from typing import Union, Optional, List
+import utype
+from utype import Schema, DataClass, Field
+class Leaf{u}({base}):
+    name: str
+class Holder{u}(Schema):
+    item: {ann} = None
+    many: List[{ann}] = Field(default_factory=list)
+class Group{u}({base}):
+    name: str
+    members: list = Field(default_factory=list)
+"""
+
+
+def run_late(case, ctx):
+    """a union one of whose arguments is named by a string and declared LATER: a value of exactly that argument type
+    comes back unchanged, like for any other argument"""
+    import sys
+    import types
+    u = next(_hid)
+    L, G = f"Leaf{u}", f"Group{u}"
+    ann = {"late-second": f"Union[{L}, '{G}']", "late-first": f"Union['{G}', {L}]", "optional": f"Optional[Union[{L}, '{G}']]",
+           "whole-string": f"'Union[{L}, {G}]'", "three": f"Union[int, {L}, '{G}']"}[case["ann"]]
+    src = LATE_SRC.format(u=u, base=case["base"], ann=ann)
+    mod = types.ModuleType("vmon_c09_late%d" % u)
+    sys.modules[mod.__name__] = mod
+    try:
+        o = run(lambda: exec(compile(src, "<c09-late>", "exec"), mod.__dict__))
+        ctx.count("calls")
+        ctx.count("late_argument_scenarios")
+        sig = ("late", case["ann"], case["base"], case["first"])
+        if not o.ok:
+            ctx.count("declaration_rejected:" + type(o.exc).__name__)
+            return
+        ns = mod.__dict__
+        H, Lc, Gc = ns[f"Holder{u}"], ns[L], ns[G]
+        g = Gc(name="g", members=[1, 2])
+        lf = Lc(name="l")
+        steps = [("item", g), ("item", lf), ("many", [g, lf, g])]
+        if case["first"] == "leaf":
+            steps = [steps[1], steps[0], steps[2]]
+        for key, val in steps:
+            r = run(lambda: getattr(H(**{key: val}), key))
+            ctx.count("calls")
+            got = r.value if r.ok else None
+            same = r.ok and (got is val if key == "item" else (isinstance(got, list) and len(got) == len(val) and all(a is b for a, b in zip(got, val))))
+            if not same:
+                ctx.violation("C09/or/exact-type-value-not-returned-unchanged/argument-declared-later",
+                              f"{ann} (Group declared after the union): {key}={short(val, 60)} -> {r!r}; a value of exactly one argument type must come back unchanged",
+                              {"source": src, "field": key, "given": short(val, 100), "observed": repr(r)}, sig=sig)
+                return
+        ctx.held(sig)
+    finally:
+        sys.modules.pop(mod.__name__, None)
+        try:
+            from utype.parser import base as pbase
+            for v in list(mod.__dict__.values()):
+                if isinstance(v, type):
+                    pbase.__parsers__.pop(v, None)
+        except Exception:
+            pass
+
+
 def make_case(i, rng, tier):
+    if rng.random() < 0.02:
+        return {"kind": "late", "ann": rng.choice(["late-second", "late-second", "late-first", "optional", "whole-string", "three"]),
+                "base": rng.choice(["Schema", "DataClass"]), "first": rng.choice(["group", "leaf"])}
     if rng.random() < 0.1:
         n = rng.randint(2, 4)
         args = [gen_arg(rng, tier) for _ in range(n)]
@@ -192,6 +260,12 @@ def _plain_exact(x, Ts):
 
 
 def run_case(case, ctx):
+    if case.get("kind") == "late":
+        return run_late(case, ctx)
+    return _run_case(case, ctx)
+
+
+def _run_case(case, ctx):
     if case["kind"] == "algebra":
         return run_algebra(case, ctx)
     from utype import Options, Rule, type_transform
